@@ -90,12 +90,44 @@ pub struct Lent {
     pub raw: Vec<RawFd>,
     /// identity of descriptors given away by value (the library owns and closes them)
     pub given: Vec<Ident>,
-    /// selects the kind of descriptor created for memory regions (0 = memfd only)
+    /// selects the kind of descriptor created for memory regions (0 = memfd only); bit 0x100: the first
+    /// descriptor lent to the call is installed as descriptor number 0 (a valid number: what a process
+    /// whose stdin is closed gets from its next open)
     pub kinds: u64,
+    /// the process's own descriptor 0, parked while a lent file occupies the number (-1: it was closed)
+    pub stdin_saved: Option<RawFd>,
+}
+
+impl Drop for Lent {
+    fn drop(&mut self) {
+        if let Some(saved) = self.stdin_saved.take() {
+            // give the number back first (dup2 replaces it atomically), then forget our File for it
+            if let Some(i) = self.files.iter().position(|f| f.as_raw_fd() == 0) {
+                std::mem::forget(self.files.remove(i));
+            }
+            if saved >= 0 {
+                unsafe {
+                    libc::dup2(saved, 0);
+                    libc::close(saved);
+                }
+            } else {
+                unsafe { libc::close(0) };
+            }
+        }
+    }
 }
 
 impl Lent {
     fn push_file(&mut self, f: File) -> RawFd {
+        let f = if self.kinds & 0x100 != 0 && self.stdin_saved.is_none() {
+            let saved = unsafe { libc::fcntl(0, libc::F_DUPFD_CLOEXEC, 3) };
+            self.stdin_saved = Some(saved);
+            assert_eq!(unsafe { libc::dup2(f.as_raw_fd(), 0) }, 0);
+            drop(f);
+            unsafe { File::from_raw_fd(0) }
+        } else {
+            f
+        };
         let fd = f.as_raw_fd();
         self.idents.push(sys::ident(fd).expect("ident"));
         self.raw.push(fd);
@@ -130,7 +162,8 @@ fn mk_regions(regs: &[Region], lent: &mut Lent) -> Vec<VhostUserMemoryRegionInfo
     regs.iter()
         .enumerate()
         .map(|(i, r)| {
-            let sel = if lent.kinds == 0 { 0 } else { lent.kinds.wrapping_add(i as u64) % 4 };
+            let k = lent.kinds & 0xff;
+            let sel = if k == 0 { 0 } else { k.wrapping_add(i as u64) % 4 };
             let f = match sel {
                 1 => File::open("/dev/null").expect("/dev/null"),
                 2 => {
